@@ -294,6 +294,83 @@ func init() {
 			}
 			return StrV{out}
 		},
+		"strings.Count": func(in *Interp, fn *ssa.Function, a []Value) Value {
+			sep := in.litArg(a[1], "Count substring")
+			s := in.p.res(nfOf(a[0]))
+			if s.isLit() {
+				return mkInt(int64(strings.Count(s.litValue(), sep)))
+			}
+			if len(sep) != 1 {
+				in.unsupported("Count with multi-byte substring on symbolic string")
+			}
+			n := int64(0)
+			for {
+				if n > int64(in.eng.cfg.maxPieces) {
+					in.p.abort("unwind", "Count exceeded the bound")
+				}
+				_, _, after, found := in.p.splitFirst(s, setOf(sep[0]))
+				if !found {
+					return mkInt(n)
+				}
+				n++
+				s = after
+			}
+		},
+		"strings.TrimLeft": func(in *Interp, fn *ssa.Function, a []Value) Value {
+			return StrV{in.trimSet(nfOf(a[0]), setStr(in.litArg(a[1], "cutset")), true, false)}
+		},
+		"strings.TrimRight": func(in *Interp, fn *ssa.Function, a []Value) Value {
+			return StrV{in.trimSet(nfOf(a[0]), setStr(in.litArg(a[1], "cutset")), false, true)}
+		},
+		"strings.Trim": func(in *Interp, fn *ssa.Function, a []Value) Value {
+			return StrV{in.trimSet(nfOf(a[0]), setStr(in.litArg(a[1], "cutset")), true, true)}
+		},
+		"bytes.Join": func(in *Interp, fn *ssa.Function, a []Value) Value {
+			parts := a[0].(SliceV)
+			sep := in.bytesContent(a[1].(BytesV))
+			var out NF = NF{}
+			for i := 0; i < parts.n; i++ {
+				if i > 0 {
+					out = nfCat(out, sep)
+				}
+				out = nfCat(out, in.bytesContent(parts.a.e[parts.off+i].v.(BytesV)))
+			}
+			return BytesV{o: in.newByteObj(out), off: linC(0), n: in.p.lenOf(out)}
+		},
+		"bytes.TrimSpace": func(in *Interp, fn *ssa.Function, a []Value) Value {
+			c := in.p.trimSpace(in.bytesContent(a[0].(BytesV)))
+			return BytesV{o: in.newByteObj(c), off: linC(0), n: in.p.lenOf(c)}
+		},
+		"bytes.HasPrefix": func(in *Interp, fn *ssa.Function, a []Value) Value {
+			pre := in.p.res(in.bytesContent(a[1].(BytesV)))
+			if !pre.isLit() {
+				in.unsupported("bytes.HasPrefix with symbolic prefix")
+			}
+			return BoolV{in.p.hasPrefix(in.bytesContent(a[0].(BytesV)), pre.litValue())}
+		},
+		"bytes.HasSuffix": func(in *Interp, fn *ssa.Function, a []Value) Value {
+			suf := in.p.res(in.bytesContent(a[1].(BytesV)))
+			if !suf.isLit() {
+				in.unsupported("bytes.HasSuffix with symbolic suffix")
+			}
+			return BoolV{in.p.hasSuffix(in.bytesContent(a[0].(BytesV)), suf.litValue())}
+		},
+		"bytes.IndexByte": func(in *Interp, fn *ssa.Function, a []Value) Value {
+			l := in.p.resLin(in.asLin(a[1]))
+			if !l.isConst() {
+				in.unsupported("IndexByte with symbolic byte")
+			}
+			idx, _ := in.p.indexSet(in.bytesContent(a[0].(BytesV)), setOf(byte(l.c)))
+			return IntV{idx}
+		},
+		"bytes.Contains": func(in *Interp, fn *ssa.Function, a []Value) Value {
+			sub := in.p.res(in.bytesContent(a[1].(BytesV)))
+			if !sub.isLit() || len(sub.litValue()) != 1 {
+				in.unsupported("bytes.Contains with symbolic or multi-byte pattern")
+			}
+			_, found := in.p.indexSet(in.bytesContent(a[0].(BytesV)), setOf(sub.litValue()[0]))
+			return mkBool(found)
+		},
 		"strings.Compare": func(in *Interp, fn *ssa.Function, a []Value) Value {
 			x, y := nfOf(a[0]), nfOf(a[1])
 			if in.p.branch("compare-eq", in.p.strEq(x, y)) {
@@ -1496,3 +1573,23 @@ func (in *Interp) fromHost(v reflect.Value, t types.Type) Value {
 }
 
 var _ = fmt.Sprint
+
+// trimSet removes leading / trailing bytes that belong to the cut set.
+func (in *Interp) trimSet(s NF, set ByteSet, left, right bool) NF {
+	keep := set.not()
+	if left {
+		_, from, found := in.p.findFirst(s, keep)
+		if !found {
+			return NF{}
+		}
+		s = from
+	}
+	if right {
+		upto, _, found := in.p.findLast(s, keep)
+		if !found {
+			return NF{}
+		}
+		s = upto
+	}
+	return in.p.res(s)
+}
